@@ -778,6 +778,7 @@ def _generic_checks(case):
         exception the property does not cover: it may have written the locations before the one it refuses; there only
         'annotation, start, length and every base outside the feature unchanged' is asserted."""
     w = World(case.get("spell", 0))
+    fresh, fresh_snap, fresh_uses = World(0), None, 0
     for op in case["ops"]:
         name = op.split()[0]
         if name == "new" or w.cur is None:
@@ -786,8 +787,9 @@ def _generic_checks(case):
         snap = _deep(w.cur)
         snap_cp = _deep(w.cp) if w.cp is not None else None
         if name in _READS:
-            fresh = World(0)
-            fresh.cur = _rebuild(w.cur)
+            if snap != fresh_snap or fresh_uses >= 6:       # a new reference object after every change of content
+                fresh.cur, fresh_snap, fresh_uses = _rebuild(w.cur), snap, 0
+            fresh_uses += 1
             exp = fresh.step(op)
             got = w.step(op)
             if got != exp:
